@@ -183,6 +183,21 @@ func c08Run(c *Ctx) {
 			}
 		}
 	}
+	// 3f. separators: every list-like construct with one separator omitted, doubled, replaced or misplaced
+	for _, text := range []string{
+		"o = {a: 1 b: 2};", "o = {a: 1\n b: 2\n};", "o = {a: 1, b: 2 c: 3};", "o = {a: 1,, b: 2};", "o = {, a: 1};", "o = {a: 1; b: 2};", "o = {a 1};", "o = {a: 1 2};", "o = {a: , b: 2};", "o = {a: 1, b: 2};", "o = {a: {b: 1 c: 2}};", "f({a: 1 b: 2});", K["print"] + " {a: 1 b: 2}.a;",
+		"x = [1 2];", "x = [1,, 2];", "x = [, 1];", "x = [1; 2];", "x = [1, 2];", "x = [[1 2], 3];", "f(1 2);", "f(1,, 2);", "f(, 1);", "f(1; 2);", "f(1, 2);", "f(g(1 2));",
+		K["fun"] + " f(a b) { }", K["fun"] + " f(a,, b) { }", K["fun"] + " f(, a) { }", K["fun"] + " f(a; b) { }", K["fun"] + " f(a, b) { }",
+		K["var"] + " a = 1 b = 2;", K["var"] + " a = 1,, b = 2;", K["var"] + " a = 1, b = 2;", K["var"] + " a b;", K["var"] + " a, ;",
+		K["for"] + " (" + K["var"] + " i = 0 i < 1; ) { }", K["for"] + " (;; ;) { }", K["for"] + " (; ) { }", K["for"] + " (;;) { }", K["for"] + " (i = 0, j = 0;;) { }",
+		"a.b.c;", "a..b;", "a.;", "a[1][2];", "a[1 2];", "a[];", "a[1,2];", K["print"] + " 1, 2;", K["print"] + " 1 2;", K["return"] + " 1 2;", "x = 1 2;", "x = 1 = 2;", "x y;",
+	} {
+		for _, wrap := range []string{"%s", Print(`"first"`) + "\n%s\n" + Print(`"last"`), K["fun"] + " w() { %s }", K["if"] + " (c) { %s }"} {
+			if c.Mine() {
+				judge(&Case{Gen: "separators", Src: fmt.Sprintf(wrap, text)})
+			}
+		}
+	}
 	// 4. reserved names and the parameter limit
 	names := []string{"input"}
 	for _, n := range ref.BI {
@@ -462,7 +477,7 @@ func init() {
 		Run:         c08Run,
 		Judge:       c08Judge,
 		MustCount: func(c *Ctx) []string {
-			return []string{"accepted", "rejected_syntax", "rejected_lexical", "rejected_assign_target", "gen:nothing-runs", "gen:deep-nest", "gen:param-limit", "gen:reserved-names", "gen:assignment-targets", "gen:literal-forms", "gen:code-point-classes", "gen:statement-positions", "gen:file-edges-cli", "gen:long-lines-cli", "gen:many-constructs", "cli_rejected_clean", "gen:prefix-extension"}
+			return []string{"accepted", "rejected_syntax", "rejected_lexical", "rejected_assign_target", "gen:nothing-runs", "gen:deep-nest", "gen:param-limit", "gen:reserved-names", "gen:assignment-targets", "gen:literal-forms", "gen:code-point-classes", "gen:statement-positions", "gen:separators", "gen:file-edges-cli", "gen:long-lines-cli", "gen:many-constructs", "cli_rejected_clean", "gen:prefix-extension"}
 		},
 	})
 }
